@@ -728,9 +728,6 @@ def compare_model(r):
 # ------------------------------------------------------------------ findings, accounting, reports
 FINDINGS = {
     'D19': 'namespace nodes and DTD-default attributes have order key 0 (or the key of the inherited declaration): on the namespace axis / attribute axis with defaults they sort first and distinct ones collapse',
-    'D16': 'the document-type node is visible as a child of the root node',
-    'D17': 'lang() compares for equality and ignores the xml: namespace',
-    'D22b': 'an attribute or namespace node has no parent in the dom view: parent/ancestor/following/preceding from it select nothing',
     'D13': 'general entity references are not expanded in the DOM view (reference node without value)',
 }
 
@@ -1082,7 +1079,6 @@ def eval_totality(run, n_random=300, isolate_limit=3):
 FINDINGS.update({
     'D35': 'an unprefixed attribute of an element in the scope of a default namespace declaration is given that namespace (dom AsExpandedName for XmlAttr; repaired on branch agent-nsattr, not merged here)',
     'D34': 'string() of negative zero is "-0" (scalar library, C09)',
-    'D55': 'the value items of an attribute (text / reference nodes of the dom) are selectable as children of the attribute node; XPath 1.0 attribute nodes have no children',
 })
 
 def classify_c05(rows, expr, impl, spec):
@@ -1096,23 +1092,10 @@ def classify_c05(rows, expr, impl, spec):
         return 'D19'
     if 'zero-key:At' in anomalies and (attr_step or 'node()' in expr):
         return 'D19'
-    up = ('..' in expr) or any(a + '::' in expr for a in ('parent', 'ancestor', 'ancestor-or-self', 'following', 'preceding', 'following-sibling', 'preceding-sibling'))
-    if attr_step and up:
-        return 'D22b'
-    if attr_step and (('//' in expr.replace('//@', '')) or any(a + '::' in expr for a in ('child', 'descendant', 'descendant-or-self')) or
-                      re.search(r'(@[\w:*.-]+|attribute::[\w:*().-]+)(\[[^\]]*\])*/+(node\(\)|text\(\)|\*|[a-z])', expr)):
-        return 'D55'
-    impl_nodes = nodes_of(impl) if isinstance(impl, str) else None
-    if has_dt and impl_nodes and any(isinstance(x, int) and x < len(rows) and rows[x]['kind'] == 'Dt' for x in impl_nodes):
-        return 'D16'
-    if has_dt and ('node()' in expr or 'preceding' in expr or 'following' in expr or re.search(r'(^|[/\[(|, ])\.($|[/\[)|, ])', expr)):
-        return 'D16'
     if attr_step and rows and any(r['kind'] == 'Ns' and r['name'].startswith('120,109,108,110,115/') for r in rows):
         # an unprefixed attribute of an element in the scope of a default namespace declaration
         return 'D35'
     if isinstance(impl, str) and isinstance(spec, str) and impl.startswith('s:') and spec.startswith('s:') and \
             impl[2:].replace('45,48', '48') == spec[2:]:
         return 'D34'
-    if 'fn:lang' in f:
-        return 'D17'
     return None
